@@ -1,8 +1,9 @@
 CONSTANTS Urls <- UrlsC
           Texts <- TextsC
           MaxMsgs = 5
-          MaxInFlight = 4
+          MaxInFlight = 3
           VersionGuard = FALSE
+          RefreshFromMemory = TRUE
 INIT LInit
 NEXT LNext
 INVARIANTS LastWordUnlessOverlapped
